@@ -136,6 +136,9 @@ var progSpecs = []progSpec{
 	{"container/factory", "defaultFactory", "GetComponents", "factory_GetComponents", ""},
 	{"container/factory", "defaultFactory", "PrepareComponents", "factory_PrepareComponents", ""},
 	{"container/factory", "PostProcessorRegistrationDelegate", "RegisterComponentPostProcessors", "delegate_RegisterComponentPostProcessors", ""},
+	{"configure/loader", "ArgsLoader", "LoadConfig", "loader_Args", ""},
+	{"configure/loader", "FileLoader", "LoadConfig", "loader_File", ""},
+	{"configure/loader", "RawLoader", "LoadConfig", "loader_Raw", ""},
 }
 
 // conversions whose single argument is passed through unchanged
@@ -795,6 +798,9 @@ func progOf(repo string, sp progSpec) string {
 			for _, im := range f.Imports {
 				p, _ := strconv.Unquote(im.Path.Value)
 				n := p[strings.LastIndex(p, "/")+1:]
+				if i := strings.LastIndex(n, ".v"); i > 0 && len(n) > i+2 && strings.Trim(n[i+2:], "0123456789") == "" {
+					n = n[:i] // gopkg.in/yaml.v3 is package yaml
+				}
 				if im.Name != nil {
 					n = im.Name.Name
 				}
